@@ -44,7 +44,7 @@ class Model:
         self.root, self.package = root, package
         self.modules, self.sources, self.sha = {}, {}, {}
         self.classes, self.functions, self.imports, self.module_assigns = {}, {}, {}, {}
-        self.locals_table, self.alpha_applied = alpha.load_table(), []
+        self.locals_table, self.alpha_applied, self.noise_removed = alpha.load_table(), [], 0
         for dp, dn, fns in os.walk(root):
             dn[:] = [d for d in dn if d != "__pycache__"]
             for f in sorted(fns):
@@ -58,6 +58,7 @@ class Model:
                 self.sources[name], self.sha[p] = src, hashlib.sha256(src.encode()).hexdigest()
                 self.modules[name] = ast.parse(src, filename=p)
                 self.modules[name]._path = p
+                self.noise_removed += alpha.strip_noise(self.modules[name])         # pass / assert / print / logging statements
                 # locals renamed since the rules were confirmed are renamed back (an alpha-conversion; see sa/alpha.py)
                 for key, mapping in alpha.canonicalise(self.modules[name], self.locals_table.get(name, {})):
                     self.alpha_applied.append("%s.%s: %s" % (name, key, ", ".join("%s->%s" % kv for kv in sorted(mapping.items()))))
